@@ -212,6 +212,43 @@ def toggle_history(case, pattern_arg, ic):
                 break
 
 
+def othertype_flag_history(case):
+    """the same pattern text, compiled from the *other* string type, used three times on one object with
+    flags f1, f2, f1: each use means what its own pattern object says"""
+    text_mode = case['enc'] is not None
+    data = case['stream']
+    script = [('d', data), ('t',), ('d', data)]
+    clock = scripted.VirtualClock()
+    kw = dict(maxread=2000, timeout=30)
+    if text_mode:
+        kw['encoding'] = 'utf-8'
+    sp = e1.Tracing(list(script), tail=case['tail'], clock=clock, **kw)
+    mo = refmodel.Model(list(script), case['tail'], encoding=case['enc'], maxread=2000)
+    natp = e1.conv(case['p'], text_mode)
+    otherp = case['p'].encode('utf-8') if text_mode else case['p']
+    f1, f2 = re.DOTALL, re.DOTALL | re.IGNORECASE
+    if case['flags'] & re.IGNORECASE:
+        f1, f2 = f2, f1
+    with scripted.virtual_time(clock):
+        for step, fl in enumerate((f1, f2, f1)):
+            ref = ('re', re.compile(natp, fl))
+            m = mo.expect([ref], None)
+            sp.begin_call()
+            exc = ret = None
+            try:
+                with guard('expect(compiled other-type pattern, flags %r)' % fl, allow=(EOF, TIMEOUT)):
+                    ret = sp.expect(re.compile(otherp, fl))
+            except EOF:
+                exc = 'EOF'
+            except TIMEOUT:
+                exc = 'TIMEOUT'
+            obs = {'ret': ret, 'exc': exc, 'before': sp.before, 'after': sp.after if exc is None else None,
+                   'buffer': sp.buffer, 'groups': (sp.match.groups() if exc is None and hasattr(sp.match, 'groups') else None)}
+            compare('othercompiled-same-text-other-flags/step%d' % step, obs, m)
+            if m.kind == 'eof':
+                break
+
+
 def check_case(case, col=None):
     text_mode = case['enc'] is not None
     p, f, ic = case['p'], case['flags'], case['ignorecase']
@@ -260,6 +297,7 @@ def check_case(case, col=None):
                   ('othercompiled/cpl', lambda: [re.compile(other(p), of)], 'cpl')]
         for name, mk, entry in oforms:
             compare(name, run_form(case, mk, entry, ic), m_c)
+        othertype_flag_history(case)
     # --- exact forms
     x = case['exact']
     m_x = model_outcome(case, ('ex', nat(x)))
